@@ -128,7 +128,7 @@ func (g *keyGen) next() []byte {
 
 func scenUI(r *Run, o uiOpts) {
 	t := r.W
-	tn := buildTown(r, TownOpts{Hostile: o.hostile, RichLinks: o.rich, Paged: o.paged})
+	tn := buildTown(r, TownOpts{Hostile: o.hostile, RichLinks: o.rich, Paged: o.paged, Markdown: o.racing})
 	w, h := 80, 24
 	if o.sizes || t.Chance(1, 3) {
 		w, h = 12+t.Draw(109), 2+t.Draw(39)
@@ -139,6 +139,8 @@ func scenUI(r *Run, o uiOpts) {
 	// the UI properties own crashes of UI sessions; other checks running sessions do not re-report them
 	if o.racing {
 		r.S.PanicProp = "C08"
+	} else if o.hookFocus && (r.Job.Prop == "C20" || r.Job.Prop == "C07") {
+		r.S.PanicProp = r.Job.Prop // a crash while opening a link externally is both a C07 and a C20 matter
 	} else {
 		r.S.PanicProp = "C07"
 	}
@@ -317,7 +319,7 @@ func scenUI(r *Run, o uiOpts) {
 
 func (u *UISession) settleSizes() {
 	u.mu.Lock()
-	u.sizes = u.sizes[len(u.sizes)-1:]
+	u.recompute()
 	u.mu.Unlock()
 }
 
